@@ -593,6 +593,15 @@ func (w *vrWorld) located(r types.Hash256) bool {
 	return ok
 }
 
+// countSectors records the contract-sector metric (correspondence only: the metric is C05's).
+func (w *vrWorld) countSectors() {
+	m, err := w.store.Metrics(time.Now().Add(time.Hour))
+	if err != nil {
+		w.t.Fatal(err)
+	}
+	w.em.Step("CountSectors", fmt.Sprintf("ONum %d", m.Storage.ContractSectors))
+}
+
 func (w *vrWorld) setHeight(h uint64) {
 	w.chain.st.Index.Height = h
 	w.em.Step(fmt.Sprintf("SetHeight %d", h), "ORes (Ok tt)")
@@ -1277,6 +1286,7 @@ func (w *vrWorld) faultAt(prob float64, approx int) int {
 
 // finalLooks observes every contract once more (and after a restart).
 func (w *vrWorld) finalLooks() {
+	w.countSectors()
 	for _, id := range w.order1 {
 		w.look(id, false)
 	}
